@@ -65,6 +65,10 @@ def faults_for(op, rid, rng, quick):
     for code in range(14):
         out.append(("recv-usb-error-%d" % code, [5, -1, 1, 3, code], "err"))
         out.append(("send-usb-error-%d" % code, [5, code, 0], "err"))
+    # a device that keeps failing the bulk IN transfer with the same libusb error (a halted endpoint that halts again after
+    # every clear, a device gone, ...): an error after a bounded number of receives, never an endless recovery loop
+    for code in (0, 3, 6, 7, 8, 9):
+        out.append(("recv-usb-error-%d-x40" % code, [5, -1, 40] + [3, code] * 40, "err"))
     out.append(("no-reply", [5, -1, 0], "err"))
     out.append(("empty-packet", [5, -1, 1, 2, "x"], "err"))
     for _ in range(3 if quick else 30):
